@@ -174,3 +174,150 @@ def c13_bounded(tier="quick", seed=0):
 def _inside_regex(p, o):
     i = p.find("/a+b/")
     return i >= 0 and i < o < i + 5
+
+
+# =======================================================================================================================
+# K1: the lexer's cursor and trivia skipping, for every source text and every position
+# =======================================================================================================================
+from pyvc.api import *      # noqa: E402
+
+
+def _place(lx, src, pos, line, col):
+    lx.source = src
+    lx.length = len(src)
+    lx.pos = pos
+    lx.line = line
+    lx.column = col
+
+
+def c_lexer_advance(lx: Obj("Lexer"), src: Str, pos: IntRange(0, 2 ** 31), line: IntRange(1, 2 ** 31), col: IntRange(1, 2 ** 31)):
+    """_advance consumes exactly one character (none at the end of the text) and keeps line/column in step: a line feed
+    starts the next line at column 1, anything else moves one column"""
+    assume(pos <= len(src))
+    _place(lx, src, pos, line, col)
+    r = outcome(REAL, lx)
+    check("never-raises", r[0] == "ret")
+    if pos >= len(src):
+        check("at-end.returns-empty", r[1] == "")
+        check("at-end.cursor-stays", lx.pos == pos and lx.line == line and lx.column == col)
+    else:
+        check("returns-the-character", r[1] == src[pos])
+        check("moves-one-character", lx.pos == pos + 1)
+        if src[pos] == "\n":
+            check("line-feed-starts-a-line", lx.line == line + 1 and lx.column == 1)
+        else:
+            check("same-line-next-column", lx.line == line and lx.column == col + 1)
+    check("text-untouched", lx.source == src and lx.length == len(src))
+
+
+def c_lexer_peek(lx: Obj("Lexer"), src: Str, pos: IntRange(0, 2 ** 31), off: IntRange(0, 8)):
+    """_current/_peek read without consuming, and read "" beyond the end instead of failing"""
+    assume(pos <= len(src))
+    _place(lx, src, pos, 1, 1)
+    r = outcome(REAL, lx, off)
+    check("never-raises", r[0] == "ret")
+    check("reads-the-character-or-empty", r[1] == (src[pos + off] if pos + off < len(src) else ""))
+    check("cursor-stays", lx.pos == pos and lx.source == src)
+
+
+@recursive
+def spec_eol(s, i) -> "int":
+    """first index >= i holding a line feed; len(s) if there is none (measure: len(s) - i)"""
+    if i >= len(s):
+        return len(s)
+    if s[i] == "\n":
+        return i
+    return spec_eol(s, i + 1)
+
+
+def spec_eol__ensures(s, i, result):
+    return i > len(s) or (i <= result and result <= len(s))
+
+
+@recursive
+def spec_close(s, i) -> "int":
+    """first index >= i where "*/" starts; -1 if there is none (measure: len(s) - i)"""
+    if i >= len(s):
+        return -1
+    if s[i] == "*" and i + 1 < len(s) and s[i + 1] == "/":
+        return i
+    return spec_close(s, i + 1)
+
+
+def spec_close__ensures(s, i, result):
+    return result == -1 or (i <= result and result + 1 < len(s))
+
+
+@recursive
+def spec_trivia_end(s, i) -> "int":
+    """where skipping white space and comments from i stops (ECMA-262 12.2-12.4: WhiteSpace, LineTerminator,
+    SingleLineComment, MultiLineComment); -1 when a block comment is not closed (measure: len(s) - i)"""
+    if i >= len(s):
+        return i
+    if s[i] == " " or s[i] == "\t" or s[i] == "\r" or s[i] == "\n":
+        return spec_trivia_end(s, i + 1)
+    if s[i] == "/" and i + 1 < len(s) and s[i + 1] == "/":
+        return spec_trivia_end(s, spec_eol(s, i + 2))
+    if s[i] == "/" and i + 1 < len(s) and s[i + 1] == "*":
+        j = spec_close(s, i + 2)
+        if j < 0:
+            return -1
+        return spec_trivia_end(s, j + 2)
+    return i
+
+
+@writes("pos", "line", "column")
+def inv_skip_outer(self):
+    pos0 = ghost_get("pos0", None)
+    src = ghost_get("src", None)
+    return (self.source == src and self.length == len(src) and pos0 <= self.pos and self.pos <= self.length
+            and spec_trivia_end(src, self.pos) == spec_trivia_end(src, pos0))
+
+
+@writes("pos", "line", "column")
+def inv_skip_line_comment(self):
+    pos0 = ghost_get("pos0", None)
+    src = ghost_get("src", None)
+    return (self.source == src and self.length == len(src) and pos0 <= self.pos and self.pos <= self.length
+            and spec_trivia_end(src, spec_eol(src, self.pos)) == spec_trivia_end(src, pos0))
+
+
+@writes("pos", "line", "column")
+def inv_skip_block_comment(self):
+    pos0 = ghost_get("pos0", None)
+    src = ghost_get("src", None)
+    j = spec_close(src, self.pos)
+    return (self.source == src and self.length == len(src) and pos0 <= self.pos and self.pos <= self.length
+            and ((j == -1 and spec_trivia_end(src, pos0) == -1) or (j >= 0 and spec_trivia_end(src, j + 2) == spec_trivia_end(src, pos0))))
+
+
+def c_lexer_skip(lx: Obj("Lexer"), src: Str, pos: IntRange(0, 2 ** 31), line: IntRange(1, 2 ** 31), col: IntRange(1, 2 ** 31)):
+    """_skip_whitespace, for every text and start position: it stops exactly where the white space / comment run that
+    starts there ends (so trivia of any length and mix between two tokens is skipped entirely and nothing of the next
+    token is), and an unclosed block comment is a JSSyntaxError -- never silently the rest of the program"""
+    assume(pos <= len(src))
+    _place(lx, src, pos, line, col)
+    ghost_set("pos0", pos)
+    ghost_set("src", src)
+    end = spec_trivia_end(src, pos)
+    r = outcome(REAL, lx)
+    if end == -1:
+        check("unclosed-comment-is-a-SyntaxError", exc_in(r, ("JSSyntaxError",)))
+    else:
+        check("returns", r[0] == "ret")
+        check("stops-where-the-trivia-ends", lx.pos == end)
+    check("text-untouched", lx.source == src and lx.length == len(src))
+
+
+def _native_lexer(name):
+    def make():
+        from microjs.lexer import Lexer
+        return getattr(Lexer, name)
+    return make
+
+
+_SKIP = "microjs.lexer:Lexer._skip_whitespace"
+register(c_lexer_advance, id="C13.Lexer._advance", prop="C13", target=method("microjs.lexer", "Lexer._advance"), native=_native_lexer("_advance"))
+register(c_lexer_peek, id="C13.Lexer._peek", prop="C13", target=method("microjs.lexer", "Lexer._peek"), native=_native_lexer("_peek"))
+register(c_lexer_skip, id="C13.Lexer._skip_whitespace", prop="C13", target=method("microjs.lexer", "Lexer._skip_whitespace"), native=_native_lexer("_skip_whitespace"),
+         invariants={(_SKIP, 0): inv_skip_outer, (_SKIP, 1): inv_skip_line_comment, (_SKIP, 2): inv_skip_block_comment}, prune_ms=1500, quick=False)
